@@ -339,7 +339,7 @@ Proof.
   intros f. induction s as [v|z|n d|b|nm|h args IH] using term_ind'; simpl; intros H y Hy; try contradiction.
   - destruct Hy as [E|[]]. subst. exact H.
   - apply in_flat_map in Hy. destruct Hy as [a [Ha Hy]]. rewrite Forall_forall in IH.
-    apply (IH a Ha); auto. inversion H as [H1]. rewrite H1. apply (map_fix _ (inst f) args H1 a Ha).
+    apply (IH a Ha); auto. injection H as H1. apply (map_fix _ (inst f) args H1 a Ha).
 Qed.
 
 Lemma subsumes_iff : forall g s, subsumes g s = true <-> exists f, inst f g = s /\ inst f s = s.
